@@ -374,6 +374,36 @@ CLAIMS = {
         ref="DESIGN.md §8 C18"),
 }
 
+# what the checks gained after the second round of seeded changes (appended to the level text)
+ADDED = {
+    "C03": " Attacker grid on the real filesystem (attack-mut): every kind of mutating operation x the attacker's mutations of an "
+           "entry on its path (moved out, replaced by a link to a host directory or file, exchanged, moved up) x every system-call "
+           "boundary x {permanent, undone one call later}; the host side is identical before and after and no descriptor of a host "
+           "object is handed back; every schedule is replayed through the model. Theorems C03_*_under_attack: against the "
+           "sequence-of-worlds attacker the parent descriptor of every mutation was below the root at some moment.",
+    "C06": " A lookup below /proc/self or /proc/thread-self whose symlink is itself visibly over-mounted must fail with EXDEV "
+           "(no fallback to another spelling of the base).",
+    "C07": " Final-component table (Props/C07_Table.lean), for every procfs tree, base, sub-path and flag set: open is the open(2) "
+           "of the trailing entry itself with O_NOFOLLOW (a link: the link object with O_PATH, ELOOP without, ENOTDIR with "
+           "O_DIRECTORY), readlink is the body of the trailing entry itself (EINVAL for a non-link), open_follow returns exactly "
+           "the target of a trailing magic-link / what the kernel's walk of the one trailing symlink arrives at / the entry itself; "
+           "an entry on another mount than its directory gives EXDEV for all three. The suite spells creation requests with O_PATH too.",
+    "C08": " History independence: the matrix runs before and after lookups that failed under descriptor exhaustion (from every "
+           "second system call on); the same lookup on the same kind of handle answers the same.",
+    "C09": " pathrs_reopen(n, flags) is called for every descriptor number of the suite (0 included) right after Handle::reopen and "
+           "must give the same object and flags or the same errno.",
+    "C11": " The transcript suite also runs with descriptor 0 closed before every operation (both backends): the kernel's first "
+           "answer is then the valid descriptor 0.",
+    "C13": " Whole-operation theorem (Props/C13_Dots.lean): when the last component of the path is '.' or '..' (every spelling: "
+           "pre/., pre/.., bare) Root::remove_all is 'resolve the parent; close; InvalidArgument' in every environment: never Ok, "
+           "and no unlinkat, directory-stream or creating call is made at all.",
+    "C15": " At the trailing position also the operations that look at the link without following it, and the whole matrix once "
+           "more with an unreadable sysctl (a /proc mounted subset=pid, every caller initialising the library itself).",
+    "C16": " The id generator, whose range the model takes as given, is observed on 4 million draws per run (60 million thorough).",
+    "C18": " The named constants the bindings export (Python PROC_*, Go pathrsProc*, the Go ProcBase switch) denote the header "
+           "constant of the same name (part of the generated tables and of `check`).",
+}
+
 PENDING = "check under construction in this session (design in DESIGN.md §8); will be claimed when its theorems and suite are committed"
 
 
@@ -411,7 +441,7 @@ def main():
             "evidence_file": f"evidence/{pid}.json",
             "replay_cmd_template": f"./check {pid} --replay {{path}}",
             "engine": "lean-model",
-            "level_claimed": {"category": "proof", "text": c["text"], "design_ref": c["ref"]},
+            "level_claimed": {"category": "proof", "text": c["text"] + ADDED.get(pid, ""), "design_ref": c["ref"]},
             "level_note": COMMON_NOTE + c["note"],
             "technique": c["technique"],
         })
